@@ -418,10 +418,24 @@ def storeStep (sid : Nat) (b : Build) (ff : Fragment) : Build :=
 theorem storeFragmentsFound_eq (b : Build) (sid : Nat) (frags : List Fragment) :
     storeFragmentsFound b sid frags = frags.foldl (storeStep sid) b := rfl
 
-/-- the loop state of the translated `store_fragments_found` — `(heap, found, multi)`, the translator's canonical (sorted by
-    variable name) order — against the model's `Build` -/
-def RelS (b0 : Build) (s : List Found × List (Key × Nat) × List (Key × Nat)) (b : Build) : Prop :=
-  Coherent s.1 s.2.1 s.2.2 ∧ b = { b0 with found := absFound s.1 s.2.1, multi := s.2.2.map (·.1) }
+/-- the loop state of the translated `store_fragments_found` in the translator's canonical order (carried variables sorted by
+    type, then by name: `self_found_fragments`, `self_fragments_found_more_than_once : List (Key × Nat)`, then `heap_ff : List Found`).
+    Everything below goes through `SSt.pack`, the named projections and `SSt.exists_pack`; a change of the order is repaired here only. -/
+abbrev SSt : Type := List (Key × Nat) × List (Key × Nat) × List Found
+namespace SSt
+abbrev pack (heap : List Found) (found multi : List (Key × Nat)) : SSt := (found, multi, heap)
+abbrev heap (s : SSt) : List Found := s.2.2
+abbrev found (s : SSt) : List (Key × Nat) := s.1
+abbrev multi (s : SSt) : List (Key × Nat) := s.2.1
+theorem exists_pack (s : SSt) : ∃ heap found multi, s = pack heap found multi := ⟨s.heap, s.found, s.multi, rfl⟩
+@[simp] theorem heap_pack (h : List Found) (f m : List (Key × Nat)) : (pack h f m).heap = h := rfl
+@[simp] theorem found_pack (h : List Found) (f m : List (Key × Nat)) : (pack h f m).found = f := rfl
+@[simp] theorem multi_pack (h : List Found) (f m : List (Key × Nat)) : (pack h f m).multi = m := rfl
+end SSt
+
+/-- the loop state of the translated `store_fragments_found` against the model's `Build` -/
+def RelS (b0 : Build) (s : SSt) (b : Build) : Prop :=
+  Coherent s.heap s.found s.multi ∧ b = { b0 with found := absFound s.heap s.found, multi := s.multi.map (·.1) }
 
 theorem absFound_new {heap : List Found} {found : List (Key × Nat)} (k : Key) (f : Found)
     (h : ∀ kv ∈ found, kv.2 < heap.length) :
@@ -433,21 +447,21 @@ theorem absFound_new {heap : List Found} {found : List (Key × Nat)} (k : Key) (
 
 /-- a contig seen for the first time: a new object, a new entry of `found` -/
 theorem relS_new {b0 b : Build} {multi found : List (Key × Nat)} {heap : List Found} {ff : Fragment} (sid : Nat)
-    (h : RelS b0 (heap, found, multi) b) (hk : dGet? found ff.keyTuple = none) :
-    RelS b0 (PyRt.foundAdd (heap ++ [{ fragment := ff, scaffolds := [] }]) heap.length sid,
-             dSet found ff.keyTuple heap.length, multi) (storeStep sid b ff) := by
+    (h : RelS b0 (SSt.pack heap found multi) b) (hk : dGet? found ff.keyTuple = none) :
+    RelS b0 (SSt.pack (PyRt.foundAdd (heap ++ [{ fragment := ff, scaffolds := [] }]) heap.length sid)
+             (dSet found ff.keyTuple heap.length) multi) (storeStep sid b ff) := by
   obtain ⟨hc, rfl⟩ := h
-  simp only [] at hc
+  simp only [SSt.heap_pack, SSt.found_pack, SSt.multi_pack] at hc ⊢
   rw [foundAdd_new, dSet_of_none _ hk]
   refine ⟨hc.new _, ?_⟩
   simp [storeStep, dGet?_absFound, hk, absFound_new _ _ hc.1]
 
 /-- a contig seen before: the object it maps to goes into `multi` and gets one more holder -/
 theorem relS_old {b0 b : Build} {multi found : List (Key × Nat)} {heap : List Found} {ff : Fragment} {r : Nat} (sid : Nat)
-    (h : RelS b0 (heap, found, multi) b) (hk : dGet? found ff.keyTuple = some r) :
-    RelS b0 (PyRt.foundAdd heap r sid, found, dSet multi ff.keyTuple r) (storeStep sid b ff) := by
+    (h : RelS b0 (SSt.pack heap found multi) b) (hk : dGet? found ff.keyTuple = some r) :
+    RelS b0 (SSt.pack (PyRt.foundAdd heap r sid) found (dSet multi ff.keyTuple r)) (storeStep sid b ff) := by
   obtain ⟨hc, rfl⟩ := h
-  simp only [] at hc
+  simp only [SSt.heap_pack, SSt.found_pack, SSt.multi_pack] at hc ⊢
   rw [foundAdd_of_lt _ (hc.lt hk)]
   refine ⟨(hc.dSet_multi hk).set _ _, ?_⟩
   simp [storeStep, dGet?_absFound, hk, absFound_set _ hc.2.1 hk (hc.lt hk), map_fst_dSet]
@@ -465,12 +479,13 @@ theorem store_tie (b : Build) (heap : List Found) (found multi : List (Key × Na
   rw [storeFragmentsFound_eq]
   refine forIn_pure_bind (RelS b) (storeStep sid) b ?_ ⟨hc, ?_⟩ ?_
   · intro ff _ s m hr
-    obtain ⟨heap, found, multi⟩ := s
+    obtain ⟨heap, found, multi, rfl⟩ := SSt.exists_pack s
     cases hk : dGet? found ff.keyTuple with
     | none => exact ⟨_, by simp [hk], relS_new sid hr hk⟩
     | some r => exact ⟨_, by simp [hk], relS_old sid hr hk⟩
   · rw [← hf, ← hm]
-  · rintro ⟨heap', found', multi'⟩ ⟨hc', hb'⟩
+  · rintro s ⟨hc', hb'⟩
+    obtain ⟨heap', found', multi', rfl⟩ := SSt.exists_pack s
     exact ⟨_, rfl, heap', found', multi', rfl, hc', hb'⟩
 
 /-! ### 7. one resolver round -/
@@ -522,13 +537,39 @@ theorem fixes_nil_store {err : Int} {store store' : List Res} {pss : List (List 
 def RelP (st : List Res) (s : List (Key × List Premise) × List Res) (m : List (Key × List Premise)) : Prop :=
   s.2 = st ∧ s.1 = m
 
-/-- the state of the `for premise in fixes_made` loop — `(heap, multi)` — against the model's `Build` -/
-def RelB (b0 : Build) (found : List (Key × Nat)) (st : List Res) (s : List Found × List (Key × Nat)) (b : Build) : Prop :=
-  Coherent s.1 found s.2 ∧ b = mkB b0 st s.1 found s.2
+/-- the state of the `for premise in fixes_made` loop in the translator's canonical order (by type, then by name:
+    `self_fragments_found_more_than_once : List (Key × Nat)`, then `heap_ff : List Found`) -/
+abbrev BSt : Type := List (Key × Nat) × List Found
+namespace BSt
+abbrev pack (heap : List Found) (multi : List (Key × Nat)) : BSt := (multi, heap)
+abbrev heap (s : BSt) : List Found := s.2
+abbrev multi (s : BSt) : List (Key × Nat) := s.1
+theorem exists_pack (s : BSt) : ∃ heap multi, s = pack heap multi := ⟨s.heap, s.multi, rfl⟩
+@[simp] theorem heap_pack (h : List Found) (m : List (Key × Nat)) : (pack h m).heap = h := rfl
+@[simp] theorem multi_pack (h : List Found) (m : List (Key × Nat)) : (pack h m).multi = m := rfl
+end BSt
 
-/-- the state of the `while multi:` loop — `(heap, multi, store)` — against the model's `Build` -/
-def RelD (b0 : Build) (found : List (Key × Nat)) (s : List Found × List (Key × Nat) × List Res) (b : Build) : Prop :=
-  Coherent s.1 found s.2.1 ∧ b = mkB b0 s.2.2 s.1 found s.2.1
+/-- the state of the `while multi:` loop in the translator's canonical order (`self_fragments_found_more_than_once : List (Key × Nat)`,
+    `heap_ff : List Found`, `store : List Res`) -/
+abbrev DSt : Type := List (Key × Nat) × List Found × List Res
+namespace DSt
+abbrev pack (heap : List Found) (multi : List (Key × Nat)) (store : List Res) : DSt := (multi, heap, store)
+abbrev heap (s : DSt) : List Found := s.2.1
+abbrev multi (s : DSt) : List (Key × Nat) := s.1
+abbrev store (s : DSt) : List Res := s.2.2
+theorem exists_pack (s : DSt) : ∃ heap multi store, s = pack heap multi store := ⟨s.heap, s.multi, s.store, rfl⟩
+@[simp] theorem heap_pack (h : List Found) (m : List (Key × Nat)) (st : List Res) : (pack h m st).heap = h := rfl
+@[simp] theorem multi_pack (h : List Found) (m : List (Key × Nat)) (st : List Res) : (pack h m st).multi = m := rfl
+@[simp] theorem store_pack (h : List Found) (m : List (Key × Nat)) (st : List Res) : (pack h m st).store = st := rfl
+end DSt
+
+/-- the state of the `for premise in fixes_made` loop against the model's `Build` -/
+def RelB (b0 : Build) (found : List (Key × Nat)) (st : List Res) (s : BSt) (b : Build) : Prop :=
+  Coherent s.heap found s.multi ∧ b = mkB b0 st s.heap found s.multi
+
+/-- the state of the `while multi:` loop against the model's `Build` -/
+def RelD (b0 : Build) (found : List (Key × Nat)) (s : DSt) (b : Build) : Prop :=
+  Coherent s.heap found s.multi ∧ b = mkB b0 s.store s.heap found s.multi
 
 theorem multi_entry_found {heap : List Found} {found multi : List (Key × Nat)} (hc : Coherent heap found multi)
     {k : Key} {r : Nat} (hd : dGet? multi k = some r) :
@@ -622,14 +663,17 @@ theorem discard_tie (fuel : Nat) (b : Build) (heap : List Found) (found multi : 
   refine whileLoop_bind (RelD b found) ?hcond ?hbody ?hk fuel _ b ⟨hc, ?init⟩
   case init => simp only [mkB, ← hf, ← hm]
   case hcond =>
-    rintro ⟨heap, multi, store⟩ b' ⟨_, rfl⟩
+    rintro s b' ⟨_, rfl⟩
+    obtain ⟨heap, multi, store, rfl⟩ := DSt.exists_pack s
     cases multi <;> rfl
   case hk =>
-    rintro ⟨heap, multi, store⟩ b' ⟨hc', hb'⟩
+    rintro s b' ⟨hc', hb'⟩
+    obtain ⟨heap, multi, store, rfl⟩ := DSt.exists_pack s
     exact ⟨_, rfl, hc', hb'⟩
   case hbody =>
-    rintro ⟨heap, multi, store⟩ b' ⟨hc', rfl⟩ _
-    simp only [] at hc' ⊢
+    rintro s b' ⟨hc', rfl⟩ _
+    obtain ⟨heap, multi, store, rfl⟩ := DSt.exists_pack s
+    simp only [DSt.pack, DSt.heap, DSt.multi, DSt.store] at hc' ⊢
     simp only [ImpResolver.resolverRound_eq, ImpResolver.roundPrems, mkB_multi, mkB_found, mkB_store, mkB_err]
     rw [forIn_map, List.foldlM_map]
     refine forIn_bind (RelP store) ?ostep ⟨rfl, rfl⟩ ?ocont
@@ -666,8 +710,9 @@ theorem discard_tie (fuel : Nat) (b : Build) (heap : List Found) (found multi : 
         refine forIn_bind (RelB b found store2) ?bstep ⟨hc', rfl⟩ ?bcont
         case bstep =>
           -- `for premise in fixes_made:` the bookkeeping
-          rintro p _ ⟨heap1, multi1⟩ m ⟨hc1, rfl⟩
-          simp only [] at hc1 ⊢
+          rintro p _ s1 m ⟨hc1, rfl⟩
+          obtain ⟨heap1, multi1, rfl⟩ := BSt.exists_pack s1
+          simp only [BSt.pack, BSt.heap, BSt.multi] at hc1 ⊢
           cases hd : dGet? multi1 p.fragment.keyTuple with
           | none =>
             rw [bookkeeping_absent _ _ hd]
@@ -688,7 +733,8 @@ theorem discard_tie (fuel : Nat) (b : Build) (heap : List Found) (found multi : 
                 simp only [hl, hl', decide_false, if_false, Bool.false_eq_true]
                 exact ⟨_, rfl, _, rfl, hc1.set _ _, rfl⟩
         case bcont =>
-          rintro ⟨heap2, multi2⟩ b2 ⟨hc2, hb2⟩
+          rintro s2 b2 ⟨hc2, hb2⟩
+          obtain ⟨heap2, multi2, rfl⟩ := BSt.exists_pack s2
           exact ⟨_, rfl, _, rfl, hc2, hb2⟩
 
 /-! ### 9. coherence alone (no model state needed) -/
